@@ -71,8 +71,8 @@ prop("C11", ["TaRs.Props.C11"],
      explanation="L0: exact characterisation of every constructor (Err iff a period is 0; never panics for allocation-free ones up to any Nat, for windowed ones while 8n <= isize::MAX), accessors stable for the whole life, Display templates, Default = new(documented defaults).")
 prop("C12", ["TaRs.Props.C12"],
      explanation="L0 theorem per indicator: from new, every sequence of next/nextBar/reset of any length returns normally for ANY scalar semantics; invariant WF by induction over the op list. clone/Debug/serialize returning normally is observed on the implementation only.")
-prop("C13", ["TaRs.Props.C13", "TaRs.Round.SMA", "TaRs.Round.TauSMA", "TaRs.Round.SDMean", "TaRs.Round.SDVar", "TaRs.Round.TauSD", "TaRs.Round.MAD", "TaRs.Round.TauMAD", "TaRs.Round.WMA", "TaRs.Round.WMAWorst", "TaRs.Round.TauWMA"],
-     explanation="exact half (theorem): accumulators equal the from-scratch window statistic after every stream of any length (SMA, WMA, SD, MAD, BB). Float half: for SMA a THEOREM under the standard model of floating-point arithmetic (Round/SMA, TauSMA: |fl x - x| <= u|x|, no overflow/underflow): after t <= 2·10^6 inputs bounded by M the generated SMA is within 3(t+1)u·M of the exact mean of the current window, and (3(t+1)u)^2 <= 1e-24 + 1e-30 t^3 at u = 2^-53, i.e. within tau(t)·M; likewise StandardDeviation's running mean = BollingerBands.average within 6k·u·M and its variance m2/count within 77(k+1)·u·M² of the exact window variance, never negative (Round/SDMean, SDVar, TauSD: both below tau(t) for every t <= 2·10^6 and every n; the clamp only moves m2 towards the exact value); MeanAbsoluteDeviation within (5k+2min(k,n)+10)·u·M, below tau(t) for every k and n (Round/MAD, TauMAD); WeightedMovingAverage within 4(k²/(min(k,n)+1)+k+2)·u·M (Round/WMA), which is below tau(t) only for k <= 4(n+1)² (or n >= 707) and EXCEEDS it for k >= 16(n+1)² (TauWMA.wma_exceeds), and the quadratic growth is attained inside the standard model (Round/WMAWorst.wma_worst, Tau.wma_worst_above_tau: 6e-6 > 2·tau after 2·10^6 inputs) — the theorem-level counterpart of the known finding WeightedMovingAverage:drift-marginal; for the remaining indicators (CCI, MFI) NOT a theorem: drift over 10^5..2·10^6-step runs measured on the implementation against double-double recomputation of the window.")
+prop("C13", ["TaRs.Props.C13", "TaRs.Round.SMA", "TaRs.Round.TauSMA", "TaRs.Round.SDMean", "TaRs.Round.SDVar", "TaRs.Round.TauSD", "TaRs.Round.MAD", "TaRs.Round.TauMAD", "TaRs.Round.WMA", "TaRs.Round.WMAWorst", "TaRs.Round.TauWMA", "TaRs.Round.MFI", "TaRs.Round.TauMFI"],
+     explanation="exact half (theorem): accumulators equal the from-scratch window statistic after every stream of any length (SMA, WMA, SD, MAD, BB). Float half: for SMA a THEOREM under the standard model of floating-point arithmetic (Round/SMA, TauSMA: |fl x - x| <= u|x|, no overflow/underflow): after t <= 2·10^6 inputs bounded by M the generated SMA is within 3(t+1)u·M of the exact mean of the current window, and (3(t+1)u)^2 <= 1e-24 + 1e-30 t^3 at u = 2^-53, i.e. within tau(t)·M; likewise StandardDeviation's running mean = BollingerBands.average within 6k·u·M and its variance m2/count within 77(k+1)·u·M² of the exact window variance, never negative (Round/SDMean, SDVar, TauSD: both below tau(t) for every t <= 2·10^6 and every n; the clamp only moves m2 towards the exact value); MeanAbsoluteDeviation within (5k+2min(k,n)+10)·u·M, below tau(t) for every k and n (Round/MAD, TauMAD); WeightedMovingAverage within 4(k²/(min(k,n)+1)+k+2)·u·M (Round/WMA), which is below tau(t) only for k <= 4(n+1)² (or n >= 707) and EXCEEDS it for k >= 16(n+1)² (TauWMA.wma_exceeds), and the quadratic growth is attained inside the standard model (Round/WMAWorst.wma_worst, Tau.wma_worst_above_tau: 6e-6 > 2·tau after 2·10^6 inputs) — the theorem-level counterpart of the known finding WeightedMovingAverage:drift-marginal; MoneyFlowIndex: both running totals (total_positive/negative_money_flow, maintained by pop/push and never recomputed) are within 3·k·min(k,n)·u·M of the sums over exactly the last min(k,n) signed computed flows, M = largest single-bar flow, for every period and every stream of bars with non-negative computed raw flow (Round/MFI.mfi_totals_rounding; ratio_err: the ratio P/(P+N) is then within 2E/(window total flow) of the exact one, i.e. accumulated error times the property's condition number c); below tau(k)·M for every k when n <= 30 (TauMFI.mfi_tau), while for n = 1000 the WORST-CASE bound exceeds tau at k = 10^4 (TauMFI.mfi_bound_exceeds, stated) — that range, MFI's last three roundings and CCI (quotient of an SMA deviation by a MAD, each covered by its own Round theorem, the quotient is not) are NOT theorems: drift over 10^5..2·10^6-step runs measured on the implementation against double-double recomputation of the window.")
 prop("C14", ["TaRs.Props.C14", "TaRs.Props.C14b"],
      explanation="L2: homogeneity/shift laws of the window statistics and their stream-level corollaries through the C01 theorems; bit-exactness for 2^k and 1e-9 otherwise are sampled on pairs of runs.")
 prop("C15", ["TaRs.Props.C15", "TaRs.Props.C15Exact"],
